@@ -199,6 +199,7 @@ def run_connection_family(ctx, pid, side, cases, classes=None, inserts=True, dea
     scn, pos = enumerate_scenarios(ctx, flights_of(caps, side), [], [], classes, inserts, [], pid.lower())
     by_sid = {s["sid"]: s for s in scn}
     skels = {"%s#%d" % (p["case"], p["msg"]): p["skel"] for p in pos}
+    unmutable = sorted("%s#%d" % (p["case"], p["msg"]) for p in pos if not p["mutable"])
     rcaps = replace_caps(caps, side)
     hcaps = {name: {"c": a["c"], "s": a["s"]} for name, (a, b) in caps.items()} if side == "c" else {}
     req = {"pki": pki, "cases": cases, "caps": hcaps, "deadline_ms": deadline_ms}
@@ -325,7 +326,7 @@ def run_connection_family(ctx, pid, side, cases, classes=None, inserts=True, dea
     return {"evaluations": len(rows) + len(arows), "distinct_nontrivial": len(tuples),
             "rule": "scenarios = TLC-enumerated (receiver state x message kind x grammar node x mutation operator) over the captured flights of %d case(s); "
                     "distinct = different (state, kind, node path, operator) tuples executed on the real %s" % (len(cases), sut),
-            "cases": [c["name"] for c in cases], "skipped_cases": skipped, "protocol_states": states, "message_kinds": kinds,
+            "cases": [c["name"] for c in cases], "skipped_cases": skipped, "messages_not_mutated_unstable_layout": unmutable, "protocol_states": states, "message_kinds": kinds,
             "classes": sorted(seen_cls), "outcomes_of_" + sut: outc, "mutated_but_ok": ok_mut, "waited_until_deadline": waited,
             "allocation_runs": len(ameas), "allocation_baseline_kb": {r["case"]: r["alloc_kb"] for r in abase},
             "allocation_max_kb": max([r["alloc_kb"] for r in ameas] or [0]), "deadline_ms": deadline_ms,
